@@ -90,6 +90,56 @@ def gen_stress():
     return d
 
 
+SHORT = ["\uAC01", "\uAC00\uAC01", "\u00E9", "e\u0301", "\u212B", "a\u0327\u0301", "a\u0301\u0327", "\u1E9B\u0323", "\u0958", "\u1100\u1161\u11A8",
+         "\u00C5\u0323", "ab", "\u0344"]
+
+
+def gen_short():
+    d = os.path.join(core.scratch(), "gen")
+    os.makedirs(d, exist_ok=True)
+    p = os.path.join(d, "ref_short.h")
+    if os.path.exists(p):
+        return d
+
+    def arr(s):
+        return "{" + ",".join("0x%X" % ord(c) for c in s) + ",0}"
+    with open(p + ".tmp", "w") as f:
+        nfds = [unicodedata.normalize("NFD", s) for s in SHORT]
+        nfcs = [unicodedata.normalize("NFC", s) for s in SHORT]
+        for i, s in enumerate(SHORT):
+            f.write("static const wchar_t sh_src%d[] = %s;\nstatic const wchar_t sh_nfd%d[] = %s;\nstatic const wchar_t sh_nfc%d[] = %s;\n" % (i, arr(s), i, arr(nfds[i]), i, arr(nfcs[i])))
+        for nm in ("src", "nfd", "nfc"):
+            f.write("static const wchar_t *const sh_%s[] = {%s};\n" % (nm, ",".join("sh_%s%d" % (nm, i) for i in range(len(SHORT)))))
+        f.write("static const unsigned sh_nfd_len[] = {%s};\nstatic const unsigned sh_nfc_len[] = {%s};\n" % (",".join(str(len(x)) for x in nfds), ",".join(str(len(x)) for x in nfcs)))
+    os.replace(p + ".tmp", p)
+    return d
+
+
+def norm_string_jobs(prop, tier, only_fn=None):
+    """wcsnorm_s on short concrete strings into a dest of exactly dmax characters (harness/h_wnorm.c)."""
+    out = []
+    if prop not in ("C01", "C03", "C04", "C05", "C08", "C17") or (only_fn and only_fn != "wcsnorm_s"):
+        return out
+    inc = gen_short()
+    idxs = range(len(SHORT)) if tier != "quick" else [0, 1, 3, 5, 7, 10]
+    for i in idxs:
+        nfd = len(unicodedata.normalize("NFD", SHORT[i]))
+        dms = sorted({1, nfd - 1, nfd, nfd + 1, nfd + 2} - {0}) if tier == "quick" else range(1, nfd + 4)
+        if any(0xAC00 <= ord(c) <= 0xD7A3 or 0x1100 <= ord(c) <= 0x11FF for c in SHORT[i]):
+            # Hangul: once the whole pipeline runs (dmax > NFD length + 1) the query exhausts memory (DESIGN C17): up to the last failing size
+            dms = [d for d in dms if d <= nfd]
+        alld = sorted({1, nfd - 1, nfd, nfd + 1, nfd + 2} - {0}) if tier == "quick" else range(1, nfd + 4)
+        for mode in (0, 1, 2):  # 2: the decomposition stage alone (wcsnorm_decompose_s), every size incl. Hangul
+            for d in (dms if mode < 2 else alld):
+                out.append(Job("wcsnorm_s.%s.short.s%d.m%d.d%d" % (prop, i, mode, d), prop, "h_wnorm.c", NORM,
+                               defines=["-I" + inc, "-DCONCRETE_PRE"] + (["-DDECOMP_ONLY"] if mode == 2 else []) + [ "-DSIDX=%d" % i, "-DMODE=%d" % (mode % 2), "-DDOBJ=%d" % d, "-DVH_MEMSET_WORD"],
+                               models=("libc_models.c", "wide_nd_models.c", "alloc_ok_models.c"), unwind_default=24,
+                               unwind_rules=[(r"^(memcpy|memset|mem_prim)", 60)], memchecks=(prop == "C01"), fn="wcsnorm_s", object_bits=12, mem_gb=12,
+                               bounds={"source": "concrete: " + " ".join("U+%04X" % ord(c) for c in SHORT[i]), "mode": ("NFD", "NFC", "decomposition stage only")[mode],
+                                       "dest object = dmax": d, "dest prefill": "symbolic"}, timeout=300))
+    return out
+
+
 def fold_string_jobs(prop, tier, only_fn=None):
     """wcsfc_s on 2-character strings over an alphabet with multi-character folds (harness/h_wfold.c): C01 C03 C04 C05 C08 (+C17 sanity)."""
     out = []
@@ -116,7 +166,7 @@ def fold_string_jobs(prop, tier, only_fn=None):
 
 
 def jobs(prop, tier, only_fn=None):
-    out = fold_string_jobs(prop, tier, only_fn)
+    out = fold_string_jobs(prop, tier, only_fn) + norm_string_jobs(prop, tier, only_fn)
     if prop != "C17":
         return out
     quick = tier == "quick"
@@ -140,5 +190,5 @@ def jobs(prop, tier, only_fn=None):
                 out.append(Job("wcsnorm_s.C17.stress%d.m%d" % (i, mode), "C17", "h_uni_stress.c", SUP, defines=idef + ["-DSIDX=%d" % i, "-DMODE=%d" % mode],
                                models=("libc_models.c", "alloc_ok_models.c"), unwind_default=140, unwind_rules=[(r"^(memcpy|memset|memmove)", 600)], fn="wcsnorm_s", object_bits=16, timeout=900, mem_gb=16,
                                bounds={"string": "concrete stress string #%d (%d code points: long mark runs, Hangul, exclusions)" % (i, len(STRESS[i])),
-                                       "mode": "NFD" if mode == 0 else "NFC", "dest prefill": "symbolic", "also": "normalising the result again gives the same"}))
+                                       "mode": ("NFD", "NFC", "decomposition stage only")[mode], "dest prefill": "symbolic", "also": "normalising the result again gives the same"}))
     return out
